@@ -123,6 +123,16 @@ func main() {
 		if bad > 0 {
 			os.Exit(1)
 		}
+	case "bindings":
+		p, err := loadProgram(*repo, *verif)
+		if err != nil {
+			fmt.Fprintln(os.Stderr, "load:", err)
+			os.Exit(2)
+		}
+		if err := p.writeBindings(*verif); err != nil {
+			fmt.Fprintln(os.Stderr, err)
+			os.Exit(2)
+		}
 	case "list":
 		p, err := loadProgram(*repo, *verif)
 		if err != nil {
